@@ -46,6 +46,16 @@ def build_cases(rng, tier):
         prog = gen_prog(r)
         # rules with REJECT in an action: flex then only promises not to warn falsely
         uses_reject = r.chance(12)
+        if i % 8 == 5:
+            # -s with variable trailing context, no REJECT, and a catch-all rule: flex builds REJECT tables, the default rule stays unreachable
+            prog = rulesets.gen_program(r, trailing=True, max_scs=r.pick([0, 1]), csize=256, depth=r.pick([1, 2]))
+            a, b = r.pick([97, 98, 48]), r.pick([98, 99, 32])
+            prog['rules'].insert(r.rng(0, len(prog['rules'])), {'head': ('plus', ('c', a)), 'bol': False, 'scs': None, 'trail': ('plus', ('c', b))})
+            prog['rules'].insert(r.rng(0, len(prog['rules'])), {'head': ('alt', ('any',), ('c', 10)), 'bol': False, 'scs': r.pick(['*', '*', None]), 'trail': None})
+            prog['rules'] = prog['rules'][:12]
+            cases.append({'id': "w%d" % i, 'prog': prog, 'seed': r.s, 'reject': False, 'sflag': True, 'text': '',
+                          'flex_opts': ["-8"], 'backend': 'nr', 'inputs': []})
+            continue
         cases.append({'id': "w%d" % i, 'prog': prog, 'seed': r.s, 'reject': uses_reject, 'sflag': r.chance(50), 'text': '',
                       'flex_opts': ["-8"], 'backend': 'nr', 'inputs': []})
     return cases
@@ -100,7 +110,10 @@ def worker(case):
             t = tables.parse_scanner(f.read())
         rejmode = tables.is_reject(t)
         res['lastdfa'] = t.get('lastdfa')
-        case_sx = "(case %s\n(queries ((warncheck %d 6000))))\n" % (scanner.sx_program(prog), 1 if rejmode else 0)
+        # actions that really REJECT: every matching rule may be reached (mode 1).  Variable trailing context alone makes flex
+        # build REJECT tables, but selection is still longest match / first rule (mode 0): a warning there is false if the rule
+        # (or, with -s, the default rule) is never selected; only the *absence* of warnings is not held against flex (rejmode)
+        case_sx = "(case %s\n(queries ((warncheck %d 6000))))\n" % (scanner.sx_program(prog), 1 if case['reject'] else 0)
         rc, out, err = scanner.run_driver(case_sx, wd, timeout=120)
         if rc == "timeout" or "INCONCLUSIVE" in out:
             res['problems'].append(('inconclusive', 'warncheck'))
